@@ -10,12 +10,24 @@
         PStart   file.exists()?                          -> PLoad | PRun
         PLoad    cache.load_fn(file)                     -> PDone (Ok v) | PDone Raised  (torn / absent file)
         PRun     res = fn(v)                             -> POpen res
-        POpen    <target>.open("wb")   (creates / truncates: 0 bytes)   -> PWrite res 0
-        PWrite   next byte of pickle.dump ; after the last byte the close   -> PWrite | PReplace | PDone
-        PReplace os.replace(tmp, file)  (temp+replace protocol only)    -> PDone
-      <target> is the final file for the direct protocol (the code as found) and a temporary file
-      in the same directory for the temp+replace protocol; which one is a FACT extracted from the
-      source (GenCacheFacts.v);
+        POpen    <target>.open("wb")   (creates / truncates: 0 bytes)   -> PWrite res 0 0
+        PWrite   next byte of pickle.dump ; after the last byte the close   -> PWrite | PReplace | PCloseR | PDone
+        PReplace os.replace(tmp, file)  (temp+replace protocol)         -> PDone
+        PCloseR  close of the handle AFTER the replace (replace-before-close protocol only) -> PDone
+      <target> is the final file for the direct protocol (the code as first found) and a temporary
+      file in the same directory for the temp+replace protocols; which one is a FACT extracted from
+      the source (GenCacheFacts.v);
+    * USER-SPACE BUFFERING: [PWrite v j d] = j bytes of the pickle were handed to fp.write, d <= j of
+      them have reached the file, the other j - d sit in the buffer of the file object (they exist
+      only in the memory of the process).  A flush policy [pol v j] says whether the write call that
+      hands over byte j also pushes the buffer to the file: [pol_through] (always; an unbuffered
+      handle) and [pol_buffered] (never; io.BufferedWriter with a payload below its buffer size)
+      are the two extremes, everything between them (a buffer of n bytes) is another [pol].  close()
+      drains the buffer.  A crash is a prefix of a schedule: the program counters -- and with them
+      every buffer -- are discarded, only the file system survives.
+    * OUT OF SCOPE: power loss / kernel crash.  The file system of the model is what the kernel has
+      been handed (page cache), which survives the death of a process but not of the machine; there
+      is no fsync step, and _pickle_save calls none;
     * a run is a schedule: the list of worker indices taking the next micro-step.  Sequential
       execution is one particular schedule, the pebble pool any interleaving; a crash is a
       prefix of a schedule (the set of schedules is prefix closed);
@@ -24,19 +36,24 @@
       worker runs, the exception surfaces when results are collected. *)
 From Coq Require Import List NArith ZArith Bool Arith Lia.
 From MxlBase Require Import ListX.
+From CacheFS Require Import CacheKeys.
 Import ListNotations.
 
 (** facts extracted from the source *)
-Inductive save_protocol := SaveDirect | SaveTempReplace | SaveUnknown.
+(* SaveReplaceOpen: temp file, but os.replace(tmp, file) is executed INSIDE the `with tmp.open(...)`
+   block, i.e. before the handle is closed (the seeded change seeded/C19-1) *)
+Inductive save_protocol := SaveDirect | SaveTempReplace | SaveReplaceOpen | SaveUnknown.
 Record cache_facts := mkCacheFacts {
   cf_save : save_protocol;      (* shape of _pickle_save *)
-  cf_load_or_run : bool;        (* _load_or_run / _pickle_load / _pickle_name have the modelled shape *)
-  cf_wiring : bool              (* parallelise + the four scan functions pass the cache through as modelled *)
+  cf_load_or_run : bool;        (* _load_or_run / _pickle_load / the Cache defaults have the modelled shape *)
+  cf_wiring : bool;             (* parallelise + the four scan functions pass the cache through as modelled *)
+  cf_name : name_kind           (* shape of _pickle_name, the default Cache.name_fn (CacheKeys.v) *)
 }.
 
 Definition save_protocol_eqb (a b : save_protocol) : bool :=
   match a, b with
-  | SaveDirect, SaveDirect | SaveTempReplace, SaveTempReplace | SaveUnknown, SaveUnknown => true
+  | SaveDirect, SaveDirect | SaveTempReplace, SaveTempReplace | SaveReplaceOpen, SaveReplaceOpen
+  | SaveUnknown, SaveUnknown => true
   | _, _ => false
   end.
 
@@ -63,6 +80,7 @@ Section Model.
   Variable name : N -> N.       (* cache.name_fn : key -> file name (as ids) *)
   Variable fnv : N -> V.        (* fn applied to the input with id x (deterministic) *)
   Variable size : V -> nat.     (* len(pickle.dumps v) *)
+  Variable pol : V -> nat -> bool.  (* flush policy: does the write handing over byte j reach the file at once? *)
 
   Definition content := (V * nat)%type.
   Definition fs := path -> option content.
@@ -73,11 +91,11 @@ Section Model.
   Inductive res := Ok (v : V) | Raised.
   Inductive pc :=
   | PStart | PLoad | PRun
-  | POpen (v : V) | PWrite (v : V) (j : nat) | PReplace (v : V)
+  | POpen (v : V) | PWrite (v : V) (j d : nat) | PReplace (v : V) | PCloseR (v : V) (d : nat)
   | PDone (r : res).
 
   Definition is_temp (pr : save_protocol) : bool :=
-    match pr with SaveTempReplace => true | _ => false end.
+    match pr with SaveTempReplace | SaveReplaceOpen => true | _ => false end.
   (* an unrecognised save protocol is treated like the direct write (the worst case) *)
   Definition target (pr : save_protocol) (p n : N) : path :=
     if is_temp pr then Tmp p n else Final n.
@@ -93,13 +111,30 @@ Section Model.
             | None => PDone Raised
             end, false, false)
     | PRun => (f, POpen (fnv x), true, false)
-    | POpen v => (upd f (target pr p n) (Some (v, 0)), PWrite v 0, false, true)
-    | PWrite v j =>
+    | POpen v => (upd f (target pr p n) (Some (v, 0)), PWrite v 0 0, false, true)
+    | PWrite v j d =>
         if Nat.ltb j (size v)
-        then (upd f (target pr p n) (Some (v, S j)), PWrite v (S j), false, true)
-        else (f, if is_temp pr then PReplace v else PDone (Ok v), false, false)
+        then (* fp.write of the next byte: it reaches the file now iff the policy flushes here *)
+             if pol v (S j)
+             then (upd f (target pr p n) (Some (v, S j)), PWrite v (S j) (S j), false, true)
+             else (f, PWrite v (S j) d, false, false)
+        else (* pickle.dump has returned *)
+          match pr with
+          | SaveReplaceOpen =>
+              (* os.replace(tmp, file) with the handle still open: the final name now denotes the
+                 file as it is ON DISK (d bytes) *)
+              (upd (upd f (Final n) (f (Tmp p n))) (Tmp p n) None, PCloseR v d, false, true)
+          | _ =>
+              (* leaving the with block: close() drains the buffer into the target *)
+              (if Nat.ltb d (size v) then upd f (target pr p n) (Some (v, size v)) else f,
+               if is_temp pr then PReplace v else PDone (Ok v), false, Nat.ltb d (size v))
+          end
     | PReplace v =>
         (upd (upd f (Final n) (f (Tmp p n))) (Tmp p n) None, PDone (Ok v), false, true)
+    | PCloseR v d =>
+        (* close() of the renamed handle: the buffer drains into what is now the final file *)
+        (if Nat.ltb d (size v) then upd f (Final n) (Some (v, size v)) else f,
+         PDone (Ok v), false, Nat.ltb d (size v))
     | PDone _ => (f, c, false, false)
     end.
 
@@ -188,10 +223,14 @@ End Model.
 
 Arguments Ok {V}. Arguments Raised {V}.
 Arguments PStart {V}. Arguments PLoad {V}. Arguments PRun {V}. Arguments POpen {V}.
-Arguments PWrite {V}. Arguments PReplace {V}. Arguments PDone {V}.
+Arguments PWrite {V}. Arguments PReplace {V}. Arguments PCloseR {V}. Arguments PDone {V}.
 Arguments Returned {V}. Arguments Raises {V}. Arguments Died {V}.
 Arguments fs_empty {V}.
 Arguments s_fs {V}. Arguments s_pcs {V}. Arguments s_calls {V}. Arguments s_effs {V}.
 Arguments collect {V}. Arguments all_done {V}. Arguments outcome_of {V}. Arguments is_done {V}.
 Arguments is_raised {V}.
 Arguments init {V}. Arguments upd {V}.
+
+(** the two extreme flush policies *)
+Definition pol_through {V : Type} : V -> nat -> bool := fun _ _ => true.    (* unbuffered handle *)
+Definition pol_buffered {V : Type} : V -> nat -> bool := fun _ _ => false.  (* nothing before close() *)
